@@ -395,6 +395,7 @@ func (p *Pool) Get() any {
 
 func (p *Pool) Put(x any) {
 	Point("Pool.Put")
+	scribble(x) // adversarial pool: released byte storage is garbage from now on (see engine/vpool)
 	p.mu.Lock()
 	p.items = append(p.items, x)
 	p.mu.Unlock()
@@ -449,4 +450,25 @@ func RangeOrder[K comparable, V any](m map[K]V, key func(K) string) []K {
 		r = s.choose("map-order", len(keys), true)
 	}
 	return append(append([]K{}, keys[r:]...), keys[:r]...)
+}
+
+// scribble overwrites the byte storage reachable from a pooled object (same model as engine/vpool; kept
+// here so that this package stays free of dependencies).
+func scribble(v any) {
+	fill := func(b []byte) {
+		b = b[:cap(b)]
+		for i := range b {
+			b[i] = 0xDB
+		}
+	}
+	switch t := v.(type) {
+	case []byte:
+		fill(t)
+	case *[]byte:
+		if t != nil {
+			fill(*t)
+		}
+	case interface{ Bytes() []byte }:
+		fill(t.Bytes())
+	}
 }
